@@ -90,7 +90,9 @@ fn main() {
     if args.len() < 2 {
         usage();
     }
-    quiet_panics();
+    if std::env::var("VERIF_LOUD").is_err() {
+        quiet_panics();
+    }
     match args[1].as_str() {
         "run" => {
             if args.len() < 3 {
